@@ -1,19 +1,8 @@
-// All object-first tables (C01).  Each group lives in its own header so that groups can be written and reviewed apart.
+// All object-first tables (C01).  Each group lives in its own header so that groups can be written and reviewed apart;
+// a group is listed here once its tables are triaged (a table under construction must not decide C01).
 #pragma once
 
 #include "objgen_stream.h"
-#if __has_include("objgen_core.h")
-#include "objgen_core.h"
-#define OG_HAVE_CORE 1
-#endif
-#if __has_include("objgen_pubsub.h")
-#include "objgen_pubsub.h"
-#define OG_HAVE_PUBSUB 1
-#endif
-#if __has_include("objgen_media.h")
-#include "objgen_media.h"
-#define OG_HAVE_MEDIA 1
-#endif
 
 namespace og {
 inline void registerAll()
@@ -23,14 +12,5 @@ inline void registerAll()
         return;
     done = true;
     registerStreamNonzas();
-#ifdef OG_HAVE_CORE
-    registerCore();
-#endif
-#ifdef OG_HAVE_PUBSUB
-    registerPubSub();
-#endif
-#ifdef OG_HAVE_MEDIA
-    registerMedia();
-#endif
 }
 }   // namespace og
